@@ -333,6 +333,12 @@ def _normal_form_by_execution(ctx, ck, rules, map_only: bool = False) -> bool:
                                 want_left = {'square': True, 'wide': True, 'tall': False}[shape_kind]
                                 if not (on_left if want_left else on_right):
                                     problems.append(f'{text}: the scalar is not on the side with fewer elements ({"left" if want_left else "right"})')
+                                # wherever it sits, the scalar operator acts on the structure of that end of the chain
+                                if on_left or on_right:
+                                    want_struct = io[0][1] if on_left else io[n - 1][0]
+                                    got_struct = hs[0].attrs.get('_in_structure')
+                                    if isinstance(got_struct, AxArr) and got_struct.axes != want_struct.axes:
+                                        problems.append(f'{text}: the scalar placed on the {"left" if on_left else "right"} is built on the structure {got_struct!r}, the chain has {want_struct!r} at that end')
                         if scalars and not hs:
                             problems.append(f'{text}: the scalar factors disappeared')
     # chains in which a binary rule fires: an operator next to its own lazy inverse disappears, the neighbours then meet
